@@ -371,7 +371,7 @@ pub fn run(args: &Args) -> Report {
         add(Scn { reqs: pool[..n].to_vec(), answers: vec![BindAnswer::Accept; n], order: (0..n).collect(), buf: 0, with_traffic: n == 2, both_sides: false, faults: false });
     }
     let plan = Plan {
-        ks: if thorough { vec![0, 1, 2, 3] } else { vec![0, 1, 2] },
+        ks: if thorough { vec![0, 1, 2, 3, 4, 5] } else { vec![0, 1, 2] },
         env: 0,
         fault: 1,
         total_wall: Duration::from_secs(if thorough { 1500 } else { 25 }),
